@@ -243,8 +243,8 @@ mod __verif_native_textures {
             if w * h <= 64 { for cut in 0..file.len() { let pre = &file[..cut];
                 match no_panic(|| Tpl::extract_textures(pre)) { Err(p) => { check(false, "C20.prefix_never_panics", || format!("{} cut {} -> {}", show(), cut, p)); }
                     Ok(Ok(_)) => { check(false, "C20.cut_payload_is_an_error", || format!("{} cut {}", show(), cut)); } Ok(Err(_)) => { check(true, "C20.cut_payload_is_an_error", || String::new()); } } } }
-            let mut wrong = file.clone(); wrong[3] ^= 1;
-            check(matches!(no_panic(|| Tpl::extract_textures(&wrong)), Ok(Err(_))), "C20.wrong_magic_is_rejected", || format!("TPL {}", hex(&wrong[..16])));
+            for byte in 0..4 { for bit in [0x01u8, 0x20, 0x80] { let mut wrong = file.clone(); wrong[byte] ^= bit;
+                check(matches!(no_panic(|| Tpl::extract_textures(&wrong)), Ok(Err(_))), "C20.wrong_magic_is_rejected", || format!("TPL {}", hex(&wrong[..16]))); } }
         }
         // ---------------- C20: CTPK / BCH / CGFX with 1..3 textures
         let mk = |name: &'static str, w: usize, h: usize, format: u32, seed: u32| Tex { name, w, h, format, data: if format >= 12 { etc_payload(w, h, format == 13, seed, None) } else { payload(payload_len(format, w, h), seed) } };
@@ -269,8 +269,8 @@ mod __verif_native_textures {
                 }
                 other => { check(false, "C20.conforming_container_is_read", || format!("{} -> {:?}", show(), other.map(|r| r.map(|_| ())))); }
             }
-            if has_magic { let mut wrong = file.clone(); wrong[1] ^= 0x20;
-                check(matches!(no_panic(|| read(&wrong)), Ok(Err(crate::TextureParseError::BadMagicNumber))), "C20.wrong_magic_is_rejected", || format!("{} {}", kind, hex(&wrong[..8]))); }
+            if has_magic { for byte in 0..4 { for bit in [0x01u8, 0x20, 0x80] { let mut wrong = file.clone(); wrong[byte] ^= bit;
+                check(matches!(no_panic(|| read(&wrong)), Ok(Err(crate::TextureParseError::BadMagicNumber))), "C20.wrong_magic_is_rejected", || format!("{} {}", kind, hex(&wrong[..8]))); } } }
             // every strict prefix: no panic; an error whenever the cut removes part of a texture payload (payloads are the tail)
             let payload_total: usize = list.iter().map(|t| t.data.len()).sum();
             for cut in 0..file.len() { let pre = &file[..cut];
